@@ -21,6 +21,8 @@
 //!   chainfilt <n> <edges> <srcs> <hops> <level> <col> <pred-op> <k> <mat>
 //!                                      FactorizedFilterOperator(ColumnPredicate) drained, each chunk flattened
 //!   expand1 <n> <edges> <srcs>         FactorizedExpandOperator::next (one hop, flattened)
+//!   qcase <n> <edges> <stored type> <type in the query> <hops> <fact 0|1> rows|count
+//!                                      GQL `MATCH (v0)-[:T]->…(vh) RETURN v0.i, vh.i` / `count(*)` through GrafeoDB
 #![allow(unused)]
 use crate::util::*;
 use grafeo_common::types::{EdgeId, LogicalType, NodeId, Value};
@@ -489,6 +491,64 @@ pub fn run(toks: &[&str]) -> String {
                 }
             })
         }
+        // C10 from query text: the same h-hop pattern with an edge-type label written in some letter
+        // case, factorized execution on or off
+        ("qcase", 8) => {
+            let Some(n) = p_nat(t[1]) else { return "bad-op".into() };
+            let Some(edges) = p_edges(t[2]) else { return "bad-op".into() };
+            if n > 64 || edges.iter().any(|(a, b)| *a >= n as u64 || *b >= n as u64) {
+                return "bad-op".into();
+            }
+            let ok_ty = |x: &str| !x.is_empty() && x.len() <= 8 && x.chars().all(|c| c.is_ascii_alphabetic() || c.is_ascii_digit()) && x.chars().next().unwrap().is_ascii_alphabetic();
+            if !ok_ty(t[3]) || !ok_ty(t[4]) {
+                return "bad-op".into();
+            }
+            let Some(hops) = p_nat(t[5]) else { return "bad-op".into() };
+            if hops == 0 || hops > 4 {
+                return "bad-op".into();
+            }
+            let fact = match t[6] {
+                "0" => false,
+                "1" => true,
+                _ => return "bad-op".into(),
+            };
+            let count = match t[7] {
+                "rows" => false,
+                "count" => true,
+                _ => return "bad-op".into(),
+            };
+            guarded(|| {
+                use grafeo_engine::config::Config;
+                use grafeo_engine::database::GrafeoDB;
+                let cfg = if fact { Config::in_memory() } else { Config::in_memory().without_factorized_execution() };
+                let db = GrafeoDB::with_config(cfg).unwrap();
+                for i in 0..n {
+                    let id = db.create_node(&["N"]);
+                    db.set_node_property(id, "i", Value::Int64(i as i64));
+                }
+                for (a, b) in &edges {
+                    db.create_edge(NodeId::new(*a), NodeId::new(*b), t[3]);
+                }
+                let mut text = "MATCH (v0)".to_string();
+                for h in 1..=hops {
+                    text.push_str(&format!("-[:{}]->(v{})", t[4], h));
+                }
+                if count {
+                    text.push_str(" RETURN count(*)");
+                } else {
+                    text.push_str(&format!(" RETURN v0.i, v{}.i", hops));
+                }
+                match db.session().execute(&text) {
+                    Err(_) => "error".to_string(),
+                    Ok(r) => {
+                        let mut rs: Vec<String> =
+                            r.rows.iter().map(|row| row.iter().map(val_str).collect::<Vec<_>>().join("|")).collect();
+                        rs.sort();
+                        if rs.is_empty() { "norows".to_string() } else { rs.join(";") }
+                    }
+                }
+            })
+        }
         ("chainfilt", 10) => {
             let Some(g) = p_graph(&t[1..5]) else { return "bad-op".into() };
             let Some(level) = p_nat(t[5]) else { return "bad-op".into() };
@@ -766,6 +826,23 @@ pub fn generate(seed: u64, cases: usize, out: &mut Vec<String>) {
             } else if pick < 89 {
                 *stats.ops.entry("expand1").or_default() += 1;
                 format!("expand1 {}", g_graph(&mut r))
+            } else if pick < 92 {
+                *stats.ops.entry("qcase").or_default() += 1;
+                let n = r.range(1, 5) as usize;
+                let m = r.range(0, 8) as usize;
+                let edges: Vec<String> = (0..m).map(|_| format!("{}>{}", r.below(n as u64), r.below(n as u64))).collect();
+                let stored = *r.pick(&["T0", "t0", "Kn", "KNOWS"]);
+                let q = *r.pick(&["T0", "t0", "KN", "kn", "Kn", "knows", "KNOWS", "X"]);
+                format!(
+                    "qcase {} {} {} {} {} {} {}",
+                    n,
+                    if edges.is_empty() { "-".to_string() } else { edges.join(",") },
+                    stored,
+                    q,
+                    r.range(1, 3),
+                    r.below(2),
+                    if r.chance(1, 3) { "count" } else { "rows" }
+                )
             } else if pick < 96 {
                 *stats.ops.entry("chainfilt").or_default() += 1;
                 let hops = r.range(1, 3);
@@ -874,4 +951,12 @@ const BOUNDARY: &[&str] = &[
     "chainfilt 3 0>1,1>2,0>2 0,1 2 1 1 ge 2 1",
     "chainfilt 3 0>1,1>2,0>2 0,1 1 1 1 ge 9 0",
     "chainfilt 3 0>1,1>2,0>2 0,1 1 0 0 eq 1 0",
+    "qcase 3 0>1,1>2 T0 T0 2 1 rows",
+    "qcase 3 0>1,1>2 T0 T0 2 0 rows",
+    "qcase 3 0>1,1>2 T0 t0 2 1 rows",
+    "qcase 3 0>1,1>2 T0 t0 2 0 rows",
+    "qcase 3 0>1,1>2 T0 t0 1 1 rows",
+    "qcase 3 0>1,1>2 T0 t0 2 1 count",
+    "qcase 3 0>1,1>2 T0 t0 2 0 count",
+    "qcase 3 0>1,1>2 T0 X 2 1 rows",
 ];
